@@ -440,7 +440,7 @@ def lenWalk (e : Env) : Nat → Int → Int → Int → Int
 /-- the date a dependency contributes to the forward bound: (start | end) + gapduration, or — when no gapduration is given
     (`if gapduration: … elif gaplength: …`; the caller sets `glen` only then) — moved on by `gaplength` of project working time -/
 def depDate (e : Env) (dp : Dep) (dt : Int) : Int :=
-  if dp.glen > 0 && dp.gap == 0 then lenWalk e (e.size.toNat + 2) dp.glen (e.idx dt) dt else dt + dp.gap
+  if dp.glen > 0 && dp.gap == 0 then lenWalk e (e.size.toNat + 3) dp.glen (e.idx dt) dt else dt + dp.gap
 
 /-- forward bound: the latest of `base` and every dependency's date -/
 def earliestStart (e : Env) (σ : St) (deps : List Dep) (base : Int) : Int :=
